@@ -156,6 +156,47 @@ def _yield_from(stmts, func):
     return out if changed else None
 
 
+# ---------------------------------------------------------------------------------------------- x[slice(a, b, c)]
+class _SliceCall(ast.NodeTransformer):
+    """x[slice(a, b, c)] with literal arguments is x[a:b:c]."""
+    def __init__(self):
+        self.changed = False
+
+    def visit_Subscript(self, n):
+        self.generic_visit(n)
+        c = n.slice
+        if isinstance(c, ast.Call) and isinstance(c.func, ast.Name) and c.func.id == 'slice' and not c.keywords \
+                and 1 <= len(c.args) <= 3 and all(isinstance(a, ast.Constant) for a in c.args):
+            vals = list(c.args)
+            if len(vals) == 1:
+                vals = [ast.Constant(value=None), vals[0], ast.Constant(value=None)]
+            elif len(vals) == 2:
+                vals = vals + [ast.Constant(value=None)]
+            parts = [None if v.value is None else v for v in vals]
+            n.slice = ast.copy_location(ast.Slice(lower=parts[0], upper=parts[1], step=parts[2]), c)
+            self.changed = True
+        return n
+
+
+# ---------------------------------------------------------------------------------------------- annotations
+def _deannotate(stmts, func):
+    """x: T = v  ->  x = v;  a bare `x: T` declares nothing at run time inside a function and is dropped."""
+    out = []
+    changed = False
+    for s in stmts:
+        if isinstance(s, ast.AnnAssign):
+            changed = True
+            if s.value is not None:
+                out.append(ast.copy_location(ast.Assign(targets=[s.target], value=s.value), s))
+            elif not isinstance(s.target, ast.Name):
+                out.append(ast.copy_location(ast.Expr(value=s.target), s))     # the target expression is still evaluated
+            continue
+        out.append(s)
+    if changed and not out:
+        out = [ast.copy_location(ast.Pass(), stmts[0])]
+    return out if changed else None
+
+
 # ---------------------------------------------------------------------------------------------- f-strings
 class _FString(ast.NodeTransformer):
     """f'{a}:{b!r}' -> '{}:{!r}'.format(a, b) - the spelling the 2/3-compatible tree uses (same conversions, same order of
@@ -585,6 +626,9 @@ def _const_elt(e):
         return True
     if isinstance(e, ast.BinOp):
         return _const_arith(e)          # 1 << 16: integer arithmetic on literals
+    if isinstance(e, ast.Call) and isinstance(e.func, ast.Name) and e.func.id == 'slice' and not e.keywords \
+            and 1 <= len(e.args) <= 3 and all(isinstance(a, ast.Constant) for a in e.args):
+        return True                     # slice(1, None, 4)
     if isinstance(e, ast.Tuple):
         return all(_const_elt(x) for x in e.elts)
     return _simple(e) and not isinstance(e, ast.Name)
@@ -600,6 +644,16 @@ class Unroll(object):
 
     def seq(self, e, func, cls, body=None):
         d = None
+        if isinstance(e, ast.Call) and isinstance(e.func, ast.Name) and e.func.id == 'zip' and not e.keywords \
+                and len(e.args) >= 2 and not any(isinstance(a, ast.Starred) for a in e.args):
+            # zip of displays of equal length: the display of the tuples
+            parts = [self.seq(a, func, cls, body) if not isinstance(a, (ast.Tuple, ast.List)) else self._display(a, body)
+                     for a in e.args]
+            if all(p_ is not None for p_ in parts) and len(set(len(p_.elts) for p_ in parts)) == 1:
+                rows = [ast.Tuple(elts=[copy.deepcopy(p_.elts[i]) for p_ in parts], ctx=ast.Load())
+                        for i in range(len(parts[0].elts))]
+                return ast.copy_location(ast.Tuple(elts=rows, ctx=ast.Load()), e)
+            return None
         if isinstance(e, (ast.Tuple, ast.List)):
             d = e
         elif isinstance(e, ast.Name):
@@ -645,6 +699,18 @@ class Unroll(object):
                 st = _stores(body)
                 if not any(isinstance(x, ast.Name) and x.id in st for x in d.elts):
                     return d
+            return None
+        return d
+
+    def _display(self, d, body):
+        if not d.elts or len(d.elts) > 8:
+            return None
+        st = _stores(body) if body is not None else {}
+        for x in d.elts:
+            if _const_elt(x):
+                continue
+            if isinstance(x, ast.Name) and body is not None and x.id not in st:
+                continue
             return None
         return d
 
@@ -1773,7 +1839,8 @@ def simple_passes(modules, log):
             if scalar_replace(fn, m.tree):
                 log.append('record of values replaced by its fields in %s' % q)
                 changed = True
-            for name, f in (('yield from modelled as a loop', _yield_from),
+            for name, f in (('annotated assignment written plainly', _deannotate),
+                            ('yield from modelled as a loop', _yield_from),
                             ('next(iter(E), D) written as a loop', _next_default),
                             ('loop over chain(A, B) split', _chain_loop),
                             ('yield of a conditional value split', _yield_ifexp),
@@ -1794,6 +1861,11 @@ def simple_passes(modules, log):
                         changed = True
                     else:
                         break
+            sc = _SliceCall()
+            sc.visit(fn)
+            if sc.changed:
+                log.append('slice() subscripts written with slice syntax in %s' % q)
+                changed = True
             if changed and dead_stores(fn):
                 log.append('dead stores removed in %s' % q)
             ast.fix_missing_locations(fn)
